@@ -4,6 +4,7 @@ import (
 	"encoding/binary"
 	"fmt"
 	"io"
+	"sort"
 
 	"github.com/dustin/go-humanize/english"
 	"github.com/hashicorp/raft"
@@ -369,7 +370,15 @@ func (s *Server) Snapshot() (raft.FSMSnapshot, error) {
 			protoStream.CreationTimestamp = creationTime.UnixNano()
 		}
 		for j, partition := range partitions {
-			protoStream.Partitions[j] = partition.Partition
+			// Take a deep copy of the partition protobuf under the partition
+			// lock. The snapshot is persisted on a different goroutine while
+			// Apply continues to mutate the live protobuf (ISR, leader,
+			// epochs, flags), so it must not be shared with the snapshot.
+			protoPartition := &proto.Partition{}
+			if err := protoPartition.Unmarshal(partition.Marshal()); err != nil {
+				return nil, errors.Wrap(err, "failed to copy partition for snapshot")
+			}
+			protoStream.Partitions[j] = protoPartition
 		}
 		protoStreams[i] = protoStream
 	}
@@ -383,6 +392,11 @@ func (s *Server) Snapshot() (raft.FSMSnapshot, error) {
 				Streams: streams,
 			})
 		}
+		// Order members deterministically since partition assignments depend
+		// on the order in which members are added back on restore.
+		sort.Slice(protoMembers, func(a, b int) bool {
+			return protoMembers[a].Id < protoMembers[b].Id
+		})
 		protoGroups[i] = &proto.ConsumerGroup{
 			Id:          group.GetID(),
 			Coordinator: coordinator,
